@@ -91,6 +91,7 @@ template<class EigenVectorType>
 void RingOfEigenVector<EigenVectorType>::clear()
 {
   ring_.clear();
+  ringIndex_ = static_cast<size_t>(-1);
 }
 
 //-----------------------------------------------------------------------------
